@@ -172,6 +172,7 @@ fn fixtures(env: &mut Env) -> &'static Fixtures {
         copy_dir(&oth, &tmp);
         let r3 = start(&tmp, 0, 0, None, true);
         let kinds_other = r3.log.iter().map(|l| l.split(' ').nth(1).unwrap_or("").to_string()).collect();
+        write_foreign_index(&root.join("tpl-foreign-index"));
         Fixtures { root, reference, current_meta, kinds, kinds_other, other_assets }
     })
 }
@@ -202,9 +203,57 @@ const META_SHAPES: [&str; 18] = [
     " {\n  \"database_hash\" : \"@H@\" ,\n  \"version\" : \"@V@\"\n}\n",
 ];
 
+/// Version strings another build of the same release could have recorded: textually different
+/// from the current one, "the same" under a tolerant (numeric, metadata-dropping) comparison.
+const FOREIGN_VERSIONS: [&str; 7] = ["@V@+nightly.3", "@V0@", " @V@ ", "@V@.0", "v@V@", "@V@-rc1", "0.0.1"];
+
+/// An index directory as another build could have left it: same field names, another layout (the
+/// `name` field under tantivy's default word tokenizer instead of prefix n-grams), some documents.
+fn write_foreign_index(dir: &Path) {
+    use tantivy::schema::{Schema, STORED, TEXT};
+    let _ = std::fs::remove_dir_all(dir);
+    std::fs::create_dir_all(dir).unwrap();
+    let mut sb = Schema::builder();
+    let f_data = sb.add_bytes_field("data", STORED);
+    let f_name = sb.add_text_field("name", TEXT | STORED);
+    let index = tantivy::Index::create_in_dir(dir, sb.build()).expect("create foreign index");
+    let mut w = index.writer_with_num_threads(1, 15_000_000).expect("foreign index writer");
+    for c in refdb::constants().iter().step_by(40) {
+        let mut d = tantivy::Document::default();
+        d.add_bytes(f_data, serde_cbor::to_vec(&c.raw).unwrap());
+        for t in &c.tokens {
+            d.add_text(f_name, t);
+        }
+        w.add_document(d).unwrap();
+    }
+    w.commit().unwrap();
+    w.wait_merging_threads().unwrap();
+}
+
 fn make_prior(fx: &Fixtures, prior: &str, data: &Path) {
     let cur = fx.root.join("tpl-current/data");
     let meta = data.join("facts/meta.json");
+    if let Some(rest) = prior.strip_prefix("foreign-layout-") {
+        // written by another version: its own index layout under a version string close to ours,
+        // recording either the current data hash or another one
+        let (k, h) = rest.split_once('-').unwrap();
+        let k: usize = k.parse().unwrap();
+        let _ = std::fs::remove_dir_all(data);
+        std::fs::create_dir_all(data.join("facts")).unwrap();
+        copy_dir(&fx.root.join("tpl-foreign-index"), &data.join("facts/index"));
+        let mut m: serde_json::Value = serde_json::from_str(&fx.current_meta).unwrap();
+        let v = m["version"].as_str().unwrap_or("0.0.0").to_string();
+        let mut parts: Vec<String> = v.split('.').map(|s| s.to_string()).collect();
+        if parts.len() > 1 {
+            parts[1] = format!("0{}", parts[1]);
+        }
+        m["version"] = serde_json::Value::String(FOREIGN_VERSIONS[k].replace("@V0@", &parts.join(".")).replace("@V@", &v));
+        if h == "otherhash" {
+            m["database_hash"] = serde_json::Value::String(format!("0{}", m["database_hash"].as_str().unwrap_or("")));
+        }
+        std::fs::write(&meta, serde_json::to_string(&m).unwrap()).unwrap();
+        return;
+    }
     match prior {
         "absent" => {
             let _ = std::fs::remove_dir_all(data);
@@ -294,7 +343,7 @@ impl Prop for C15 {
         120
     }
     fn rule(&self) -> String {
-        "prior directory states: absent; complete and current; written by another version (a foreign major version; the next patch version or a build suffix over an index with other content and the current data hash); written for other data (built by the real code through the asset seam); other hash; meta.json missing / empty / {} / [] / garbage / every proper prefix of the valid bytes / 18 well-formed JSON documents of the wrong shape or type (null, a number, a list, `version` a number / list / object, a numeric or null hash, a missing or duplicated key, keys in another case, extra fields, other whitespace and key order); index directory missing under a current meta.json; index directory without tantivy's own meta.json. Each prior state x two crash-free starts (family start). Crash enumeration (family crash): prior state x every crash point N = 1..N_max of the real start under the LD_PRELOAD shim (process SIGKILLed before its N-th file-system mutation; quick: absent, other-data, index-missing and index-without-tantivy-meta priors, every point; thorough: eight priors, every point, each write also torn after half and after all-but-one byte), then: meta.json current => index complete (opened independently with tantivy), then two crash-free starts that must answer the probe set exactly like Db::in_memory(). Thorough adds two-crash histories: from the absent prior every pair (n1, n2) with n1 <= 130 and n2 <= 140 (a start performs about 110-125 mutations), from the other-data prior every second n1 and n2; after the second kill the same two oracles apply. Non-trivial = the start performed at least one mutation before it was killed / a prior state other than `current`; distinct = distinct (prior, N, torn)".into()
+        "prior directory states: absent; complete and current; written by another version (a foreign major version; the next patch version or a build suffix over an index with other content and the current data hash); written by another build with its own index layout (same field names, the name field under the default word tokenizer) under seven version strings close to the current one (build metadata, zero-padded, blank-padded, extra component, v-prefix, pre-release tag, another release) x {current data hash, another hash}; written for other data (built by the real code through the asset seam); other hash; meta.json missing / empty / {} / [] / garbage / every proper prefix of the valid bytes / 18 well-formed JSON documents of the wrong shape or type (null, a number, a list, `version` a number / list / object, a numeric or null hash, a missing or duplicated key, keys in another case, extra fields, other whitespace and key order); index directory missing under a current meta.json; index directory without tantivy's own meta.json. Each prior state x two crash-free starts (family start). Crash enumeration (family crash): prior state x every crash point N = 1..N_max of the real start under the LD_PRELOAD shim (process SIGKILLed before its N-th file-system mutation; quick: absent, other-data, index-missing and index-without-tantivy-meta priors, every point; thorough: eight priors, every point, each write also torn after half and after all-but-one byte), then: meta.json current => index complete (opened independently with tantivy), then two crash-free starts that must answer the probe set exactly like Db::in_memory(). Thorough adds two-crash histories: from the absent prior every pair (n1, n2) with n1 <= 130 and n2 <= 140 (a start performs about 110-125 mutations), from the other-data prior every second n1 and n2; after the second kill the same two oracles apply. Non-trivial = the start performed at least one mutation before it was killed / a prior state other than `current`; distinct = distinct (prior, N, torn)".into()
     }
     fn assumptions(&self) -> Vec<String> {
         vec![
@@ -312,6 +361,11 @@ impl Prop for C15 {
         }
         for k in 0..META_SHAPES.len() {
             sink(Case::with("start", format!("prior=meta-shape-{k}"), serde_json::json!({"prior": format!("meta-shape-{k}")})));
+        }
+        for k in 0..FOREIGN_VERSIONS.len() {
+            for h in ["samehash", "otherhash"] {
+                sink(Case::with("start", format!("prior=foreign-layout-{k}-{h}"), serde_json::json!({"prior": format!("foreign-layout-{k}-{h}")})));
+            }
         }
         let crash_priors: Vec<&str> = match tier {
             Tier::Quick => vec!["absent", "other-data", "index-without-tantivy-meta", "index-missing"],
@@ -428,7 +482,7 @@ impl Prop for C15 {
         fw::pass(nontrivial, fw::hash_str(prior))
     }
     fn bounds(&self, tier: Tier) -> serde_json::Value {
-        serde_json::json!({"crash_points_cap": NCAP, "prior_states": PRIORS.len() + 80 + META_SHAPES.len(), "crash_priors": tier.pick(4, 8), "torn_variants": tier.pick(0, 2), "second_crash": tier == Tier::Thorough, "two_crash_pairs": if tier == Tier::Thorough { DOUBLE_N1 * DOUBLE_N2 + (DOUBLE_N1 / 2) * (DOUBLE_N2 / 2) } else { 0 }})
+        serde_json::json!({"crash_points_cap": NCAP, "prior_states": PRIORS.len() + 80 + META_SHAPES.len() + 2 * FOREIGN_VERSIONS.len(), "crash_priors": tier.pick(4, 8), "torn_variants": tier.pick(0, 2), "second_crash": tier == Tier::Thorough, "two_crash_pairs": if tier == Tier::Thorough { DOUBLE_N1 * DOUBLE_N2 + (DOUBLE_N1 / 2) * (DOUBLE_N2 / 2) } else { 0 }})
     }
 }
 
